@@ -285,3 +285,17 @@ impl<VALID> ModifyList<VALID> {
         self.len() == 0
     }
 }
+
+// Verification hook (C24). Add-only and behaviour neutral; only compiled with `verif-hooks`.
+#[cfg(feature = "verif-hooks")]
+#[allow(clippy::items_after_test_module)]
+impl ModifyList<ModifyValid> {
+    /// Mark a list of modifications as valid without schema validation, so that the access
+    /// control entry points can be driven without a query server.
+    pub fn verif_c24_valid(mods: Vec<Modify>) -> Self {
+        ModifyList {
+            valid: ModifyValid,
+            mods,
+        }
+    }
+}
